@@ -49,6 +49,9 @@ Excluded(e) ==
 RoundTripOK(e) ==
   LET m == e.words.m[1] IN
   /\ e.words.out_st = "ok"
+  \* "exactly the input's instructions: each one re-encoded to the same words, none dropped, duplicated or
+  \*  invented", grouped in layout order: the output is the encoding of a module Loader!Load computes from the INPUT
+  /\ \E o \in L!Load(e.insts) : o.st = "ok" /\ SubSeq(e.words.out, 6, Len(e.words.out)) = L!EncodeInsts(L!AllInsts(o.m), 1)
   \* header: magic, the input's version, a generator word, the input's bound, 0;
   \* then exactly the instructions of the loaded module in layout order, re-encoded
   /\ Len(e.words.out) >= 5
